@@ -207,6 +207,58 @@ pub enum Policy {
     Shuffle,
     /// favours checks and moves that reduce the opponent's mobility (drives towards mates)
     Hunt,
+    /// wanders with quiet piece moves and, whenever possible, steps into a placement that was
+    /// already seen with the *other* side to move (tempo loss / triangulation): the look-alike
+    /// that every cache keyed by a side-blind position key confuses
+    Lookalike,
+}
+
+/// Placements seen so far along a generated history, with the sides that were to move there.
+#[derive(Default, Clone)]
+pub struct Seen {
+    map: std::collections::HashMap<u64, u8>,
+}
+
+impl Seen {
+    pub fn note(&mut self, p: &Pos) {
+        *self.map.entry(p.placement_fingerprint()).or_insert(0) |= 1 << (p.stm as u8);
+    }
+
+    /// A legal move leading to a placement already seen with the other side to move.
+    pub fn lookalike_move(&self, rng: &mut Rng, pos: &Pos, legal: &[Mv]) -> Option<usize> {
+        let mut hits: Vec<usize> = Vec::new();
+        for (i, m) in legal.iter().enumerate() {
+            if m.piece == P::Pawn || m.capture.is_some() || m.castle.is_some() {
+                continue;
+            }
+            let next = pos.make(m);
+            if let Some(mask) = self.map.get(&next.placement_fingerprint()) {
+                // seen with the side that would NOT be to move after this move
+                if mask & (1 << (pos.stm as u8)) != 0 && next.rights == pos.rights {
+                    hits.push(i);
+                }
+            }
+        }
+        if hits.is_empty() {
+            None
+        } else {
+            Some(*rng.pick(&hits))
+        }
+    }
+}
+
+/// `choose_move` with the look-alike policy's memory.
+pub fn choose_move_seen(rng: &mut Rng, pos: &Pos, legal: &[Mv], policy: Policy, last_own: Option<&Mv>, seen: &mut Seen) -> usize {
+    seen.note(pos);
+    if policy == Policy::Lookalike {
+        if rng.chance(4, 5) {
+            if let Some(k) = seen.lookalike_move(rng, pos, legal) {
+                return k;
+            }
+        }
+        return choose_move(rng, pos, legal, Policy::Frozen, last_own);
+    }
+    choose_move(rng, pos, legal, policy, last_own)
 }
 
 fn spicy_weight(pos: &Pos, m: &Mv) -> usize {
@@ -247,7 +299,7 @@ fn spicy_weight(pos: &Pos, m: &Mv) -> usize {
 pub fn choose_move(rng: &mut Rng, pos: &Pos, legal: &[Mv], policy: Policy, last_own: Option<&Mv>) -> usize {
     debug_assert!(!legal.is_empty());
     let weights: Vec<usize> = match policy {
-        Policy::Uniform => vec![1; legal.len()],
+        Policy::Uniform | Policy::Lookalike => vec![1; legal.len()],
         Policy::Spicy => legal.iter().map(|m| spicy_weight(pos, m)).collect(),
         Policy::Quiet => legal
             .iter()
